@@ -42,6 +42,16 @@ REPLIES = [
     ("299", b"HTTP/1.1 299 Custom Success\r\n\r\n", False),
     ("202", b"HTTP/1.1 202 Accepted\r\n\r\n", False),
     ("100_then_nothing", b"HTTP/1.1 100 Continue\r\n\r\n", False),
+    # answers of TWO header blocks: the proxy's answer is the first one, and it is not a 200
+    ("100_then_407", b"HTTP/1.1 100 Continue\r\n\r\nHTTP/1.1 407 Proxy Authentication Required\r\n\r\n", False),
+    ("100_then_502", b"HTTP/1.1 100 Continue\r\nVia: x\r\n\r\nHTTP/1.1 502 Bad Gateway\r\nContent-Length: 0\r\n\r\n", False),
+    ("100_then_200", b"HTTP/1.1 100 Continue\r\n\r\nHTTP/1.1 200 Connection established\r\n\r\n", False),
+    ("102_then_403", b"HTTP/1.1 102 Processing\r\n\r\nHTTP/1.1 403 Forbidden\r\n\r\n", False),
+    ("103_then_100_then_407", b"HTTP/1.1 103 Early Hints\r\nLink: </x>\r\n\r\nHTTP/1.1 100 Continue\r\n\r\n"
+                              b"HTTP/1.1 407 Proxy Authentication Required\r\n\r\n", False),
+    ("101_then_200", b"HTTP/1.1 101 Switching Protocols\r\nUpgrade: websocket\r\n\r\nHTTP/1.1 200 OK\r\n\r\n", False),
+    ("407_then_200", b"HTTP/1.1 407 Proxy Authentication Required\r\n\r\nHTTP/1.1 200 Connection established\r\n\r\n", False),
+    ("204_then_200", b"HTTP/1.1 204 No Content\r\n\r\nHTTP/1.1 200 OK\r\n\r\n", False),
     ("garbage", b"\x16\x03\x01\x02\x00\x01\x00\x01\xfc\x03\x03" + b"\xaa" * 60 + b"\r\n\r\n", False),
     ("not_http", b"SSH-2.0-OpenSSH_8.9\r\n\r\n", False),
     ("empty", b"", False),
